@@ -13,7 +13,7 @@ CONSTANTS
   GcAlwaysSyncs = TRUE
   OpenSizesLast = TRUE
   PayLens = {2, 9}
-  BatchSizes = {1, 2}
+  BatchSizes = {1}
   AllowExplicit = FALSE
   MaxDamage = 0
   DamageKinds = {}
